@@ -52,6 +52,9 @@ pub ghost struct NodeSt {
     pub ss: SubstitutionSet<'static>,
     // ghost: distance from the base node of the query (a node's children are one deeper)
     pub depth: nat,
+    // ghost: depth of the call this node belongs to - the nearest complex-goal node at or above it (a complex-goal node
+    // has no parent_node, so the walk of set_no_backtracking() ends there)
+    pub call_depth: nat,
     // ghost history: next_solution() on this node has returned None ("no (more) solution") at least once
     pub done: bool,
 }
@@ -68,7 +71,14 @@ pub open spec fn opt_done(h: Heap, o: Option<int>) -> bool {
     match o { Some(c) => is_done(h, c), None => true }
 }
 pub open spec fn opt_kid(h: Heap, n: int, o: Option<int>) -> bool {
-    match o { Some(c) => alive(h, c) && h.st[c].depth == h.st[n].depth + 1, None => true }
+    match o {
+        Some(c) => alive(h, c) && h.st[c].depth == h.st[n].depth + 1
+            && h.st[c].call_depth == (if h.st[c].goal is ComplexGoal { h.st[c].depth } else { h.st[n].call_depth }),
+        None => true,
+    }
+}
+pub open spec fn opt_flagged(h: Heap, o: Option<int>) -> bool {
+    match o { Some(c) => alive(h, c) && h.st[c].no_backtracking, None => true }
 }
 pub uninterp spec fn op_len(o: Operator) -> nat;
 pub open spec fn op_tail_empty(o: Option<Operator>) -> bool {
@@ -78,7 +88,7 @@ pub open spec fn is_not_goal(g: Goal) -> bool { g matches Goal::OperatorGoal(op)
 pub open spec fn is_time_goal(g: Goal) -> bool { g matches Goal::OperatorGoal(op) && op is Time }
 
 // what a node that has reported "no more" looks like: asking it again finds nothing to do
-pub open spec fn local_done(h: Heap, n: int) -> bool {
+pub open spec fn local_done_body(h: Heap, n: int) -> bool {
     let s = h.st[n];
     s.no_backtracking || match s.goal {
         Goal::OperatorGoal(Operator::And(_)) => opt_done(h, s.head_sn) && opt_done(h, s.tail_sn),
@@ -93,12 +103,29 @@ pub open spec fn local_done(h: Heap, n: int) -> bool {
     }
 }
 
-pub open spec fn wf_node(h: Heap, n: int) -> bool {
+pub open spec fn wf_node_body(h: Heap, n: int) -> bool {
     let s = h.st[n];
     &&& !(s.goal is Nil)
     &&& opt_kid(h, n, s.child) && opt_kid(h, n, s.head_sn) && opt_kid(h, n, s.tail_sn)
     &&& (s.goal is OperatorGoal ==> s.head_sn is Some)
     &&& 0 <= s.rule_index && 0 <= s.number_facts_rules <= usize::MAX
+    &&& s.call_depth <= s.depth && (s.goal is ComplexGoal ==> s.call_depth == s.depth)
+    // the cut disables backtracking on a node together with its head node (the goals to the left of the cut)
+    &&& (s.no_backtracking ==> opt_flagged(h, s.head_sn))
+}
+
+// Under the quantifier of the invariant the two predicates are opaque: unfolded there, every node's well-formedness would
+// mention its children, whose well-formedness mentions theirs - a matching loop down the tree.  They are unfolded for one
+// node at a time (lemma_unfold_me).
+#[verifier::opaque]
+pub open spec fn wf_node(h: Heap, n: int) -> bool { wf_node_body(h, n) }
+#[verifier::opaque]
+pub open spec fn local_done(h: Heap, n: int) -> bool { local_done_body(h, n) }
+pub proof fn lemma_unfold_me(h: Heap, n: int)
+    requires inv(h), alive(h, n),
+    ensures wf_node_body(h, n), h.st[n].done ==> local_done_body(h, n),
+{
+    reveal(wf_node); reveal(local_done);
 }
 
 // the heap invariant
@@ -120,10 +147,14 @@ pub open spec fn same_but_flag(a: NodeSt, b: NodeSt) -> bool {
 pub open spec fn ev(h: Heap, h2: Heap, l: Set<int>) -> bool {
     &&& h.out <= h2.out
     &&& forall|m: int| #[trigger] alive(h, m) ==> alive(h2, m)
-            && h2.st[m].goal == h.st[m].goal && h2.st[m].depth == h.st[m].depth
+            && h2.st[m].goal == h.st[m].goal && h2.st[m].depth == h.st[m].depth && h2.st[m].call_depth == h.st[m].call_depth
             && (h.st[m].done ==> h2.st[m].done)
             && (h.st[m].no_backtracking ==> h2.st[m].no_backtracking)
             && (l.contains(m) ==> same_but_flag(h.st[m], h2.st[m]))
+}
+// the cut flags of the nodes above depth d are as they were
+pub open spec fn flags_kept_above(h: Heap, h2: Heap, d: nat) -> bool {
+    forall|m: int| #[trigger] alive(h, m) && h.st[m].depth < d ==> alive(h2, m) && h2.st[m].no_backtracking == h.st[m].no_backtracking
 }
 pub open spec fn evolves(h: Heap, h2: Heap) -> bool {
     ev(h, h2, h.locked) && h2.locked == h.locked
@@ -134,7 +165,7 @@ pub proof fn lemma_ev_trans(a: Heap, b: Heap, c: Heap, l: Set<int>, l2: Set<int>
     ensures ev(a, c, l),
 {
     assert forall|m: int| #[trigger] alive(a, m) implies alive(c, m)
-            && c.st[m].goal == a.st[m].goal && c.st[m].depth == a.st[m].depth
+            && c.st[m].goal == a.st[m].goal && c.st[m].depth == a.st[m].depth && c.st[m].call_depth == a.st[m].call_depth
             && (a.st[m].done ==> c.st[m].done)
             && (a.st[m].no_backtracking ==> c.st[m].no_backtracking)
             && (l.contains(m) ==> same_but_flag(a.st[m], c.st[m])) by {
@@ -303,6 +334,8 @@ pub open spec fn working(h0: Heap, h: Heap, me: int) -> bool {
     &&& inv(h)
     // only the function that holds the RefMut marks its node
     &&& h.st[me].done == h0.st[me].done
+    // the invariant, unfolded for this one node
+    &&& wf_node_body(h, me) && (h.st[me].done ==> local_done_body(h, me))
 }
 // a child of me can be asked: every live RefMut is above it
 pub proof fn lemma_kid_below(h0: Heap, h: Heap, me: int, c: int)
@@ -320,20 +353,22 @@ pub proof fn lemma_after_call(h0: Heap, h1: Heap, h2: Heap, me: int)
     ensures working(h0, h2, me), same_but_flag(h1.st[me], h2.st[me]),
 {
     assert(alive(h1, me));
+    lemma_unfold_me(h2, me);
     lemma_ev_trans(h0, h1, h2, h0.locked, h1.locked);
 }
 // after a write to a field of me
 pub open spec fn wrote(h1: Heap, h2: Heap, me: int) -> bool {
     &&& h2.st.dom() =~= h1.st.dom() && h2.locked == h1.locked && h2.out == h1.out
     &&& forall|m: int| m != me ==> h2.st[m] == h1.st[m]
-    &&& h2.st[me].goal == h1.st[me].goal && h2.st[me].depth == h1.st[me].depth
+    &&& h2.st[me].goal == h1.st[me].goal && h2.st[me].depth == h1.st[me].depth && h2.st[me].call_depth == h1.st[me].call_depth
     &&& h2.st[me].done == h1.st[me].done && h2.st[me].no_backtracking == h1.st[me].no_backtracking
 }
 pub proof fn lemma_after_write(h0: Heap, h1: Heap, h2: Heap, me: int)
     requires working(h0, h1, me), wrote(h1, h2, me), !h0.locked.contains(me),
-             wf_node(h2, me), h2.st[me].done ==> local_done(h2, me),
+             wf_node_body(h2, me), h2.st[me].done ==> local_done_body(h2, me),
     ensures working(h0, h2, me),
 {
+    reveal(wf_node); reveal(local_done);
     assert forall|n: int| #[trigger] alive(h2, n) implies wf_node(h2, n) && (h2.st[n].done ==> local_done(h2, n)) by {
         assert(alive(h1, n));
         if n != me {
@@ -350,7 +385,7 @@ pub proof fn lemma_after_write(h0: Heap, h1: Heap, h2: Heap, me: int)
         }
     }
     assert forall|m: int| #[trigger] alive(h0, m) implies alive(h2, m)
-            && h2.st[m].goal == h0.st[m].goal && h2.st[m].depth == h0.st[m].depth
+            && h2.st[m].goal == h0.st[m].goal && h2.st[m].depth == h0.st[m].depth && h2.st[m].call_depth == h0.st[m].call_depth
             && (h0.st[m].done ==> h2.st[m].done)
             && (h0.st[m].no_backtracking ==> h2.st[m].no_backtracking)
             && (h0.locked.contains(m) ==> same_but_flag(h0.st[m], h2.st[m])) by {
@@ -359,10 +394,11 @@ pub proof fn lemma_after_write(h0: Heap, h1: Heap, h2: Heap, me: int)
 }
 // the end of the function: the RefMut is dropped, and a node that reports None is marked
 pub proof fn lemma_mark(h1: Heap, h2: Heap, me: int)
-    requires inv(h1), alive(h1, me), local_done(h1, me),
+    requires inv(h1), alive(h1, me), local_done_body(h1, me),
              h2.st == h1.st.insert(me, NodeSt { done: true, ..h1.st[me] }),
     ensures inv(h2),
 {
+    reveal(wf_node); reveal(local_done);
     assert forall|n: int| #[trigger] alive(h2, n) implies wf_node(h2, n) && (h2.st[n].done ==> local_done(h2, n)) by {
         assert(alive(h1, n));
         assert(wf_node(h1, n));
@@ -382,6 +418,7 @@ pub proof fn lemma_inv_same_st(h: Heap, h2: Heap)
     requires inv(h), h2.st == h.st,
     ensures inv(h2),
 {
+    reveal(wf_node); reveal(local_done);
     assert forall|n: int| #[trigger] alive(h2, n) implies wf_node(h2, n) && (h2.st[n].done ==> local_done(h2, n)) by {
         assert(alive(h, n));
         assert(wf_node(h, n));
@@ -397,6 +434,7 @@ pub proof fn lemma_working_start(h0: Heap, h: Heap, me: int)
     ensures working(h0, h, me),
 {
     lemma_inv_same_st(h0, h);
+    lemma_unfold_me(h, me);
     assert forall|m: int| #[trigger] alive(h0, m) implies same_but_flag(h0.st[m], h.st[m]) by { lemma_same_but_flag_refl(h0.st[m]); }
 }
 pub proof fn lemma_not_locked(h: Heap, me: int)
@@ -412,7 +450,7 @@ pub open spec fn marked(h1: Heap, h2: Heap, me: int, mark: bool) -> bool {
 // the function that held the RefMut of me returns: the RefMut is dropped; a node that reports None is marked done
 pub proof fn lemma_finish(h0: Heap, h1: Heap, h2: Heap, me: int, mark: bool)
     requires working(h0, h1, me), above(h0, me), marked(h1, h2, me, mark), h2.locked == h1.locked.remove(me),
-             mark ==> local_done(h1, me),
+             mark ==> local_done_body(h1, me),
     ensures inv(h2), evolves(h0, h2),
 {
     lemma_not_locked(h0, me);
@@ -421,7 +459,7 @@ pub proof fn lemma_finish(h0: Heap, h1: Heap, h2: Heap, me: int, mark: bool)
     lemma_inv_same_st(h1, hm);
     if mark { lemma_mark(hm, h2, me); } else { lemma_inv_same_st(h1, h2); }
     assert forall|m: int| #[trigger] alive(h0, m) implies alive(h2, m)
-            && h2.st[m].goal == h0.st[m].goal && h2.st[m].depth == h0.st[m].depth
+            && h2.st[m].goal == h0.st[m].goal && h2.st[m].depth == h0.st[m].depth && h2.st[m].call_depth == h0.st[m].call_depth
             && (h0.st[m].done ==> h2.st[m].done)
             && (h0.st[m].no_backtracking ==> h2.st[m].no_backtracking)
             && (h0.locked.contains(m) ==> same_but_flag(h0.st[m], h2.st[m])) by {
@@ -431,14 +469,14 @@ pub proof fn lemma_finish(h0: Heap, h1: Heap, h2: Heap, me: int, mark: bool)
 // the same for a function that delegated to another one (no RefMut of its own)
 pub proof fn lemma_finish_unlocked(h0: Heap, h1: Heap, h2: Heap, me: int, mark: bool)
     requires evolves(h0, h1), inv(h1), alive(h0, me), above(h0, me), marked(h1, h2, me, mark), h2.locked == h1.locked,
-             mark ==> local_done(h1, me),
+             mark ==> local_done_body(h1, me),
     ensures inv(h2), evolves(h0, h2),
 {
     lemma_not_locked(h0, me);
     assert(alive(h1, me));
     if mark { lemma_mark(h1, h2, me); } else { lemma_inv_same_st(h1, h2); }
     assert forall|m: int| #[trigger] alive(h0, m) implies alive(h2, m)
-            && h2.st[m].goal == h0.st[m].goal && h2.st[m].depth == h0.st[m].depth
+            && h2.st[m].goal == h0.st[m].goal && h2.st[m].depth == h0.st[m].depth && h2.st[m].call_depth == h0.st[m].call_depth
             && (h0.st[m].done ==> h2.st[m].done)
             && (h0.st[m].no_backtracking ==> h2.st[m].no_backtracking)
             && (h0.locked.contains(m) ==> same_but_flag(h0.st[m], h2.st[m])) by {
@@ -452,8 +490,9 @@ pub proof fn lemma_after_alloc(h0: Heap, h1: Heap, h2: Heap, me: int)
     ensures working(h0, h2, me),
 {
     assert(alive(h1, me));
+    lemma_unfold_me(h2, me);
     assert forall|m: int| #[trigger] alive(h0, m) implies alive(h2, m)
-            && h2.st[m].goal == h0.st[m].goal && h2.st[m].depth == h0.st[m].depth
+            && h2.st[m].goal == h0.st[m].goal && h2.st[m].depth == h0.st[m].depth && h2.st[m].call_depth == h0.st[m].call_depth
             && (h0.st[m].done ==> h2.st[m].done)
             && (h0.st[m].no_backtracking ==> h2.st[m].no_backtracking)
             && (h0.locked.contains(m) ==> same_but_flag(h0.st[m], h2.st[m])) by {
@@ -466,8 +505,9 @@ pub proof fn lemma_after_out(h0: Heap, h1: Heap, h2: Heap, me: int)
     ensures working(h0, h2, me),
 {
     lemma_inv_same_st(h1, h2);
+    lemma_unfold_me(h2, me);
     assert forall|m: int| #[trigger] alive(h0, m) implies alive(h2, m)
-            && h2.st[m].goal == h0.st[m].goal && h2.st[m].depth == h0.st[m].depth
+            && h2.st[m].goal == h0.st[m].goal && h2.st[m].depth == h0.st[m].depth && h2.st[m].call_depth == h0.st[m].call_depth
             && (h0.st[m].done ==> h2.st[m].done)
             && (h0.st[m].no_backtracking ==> h2.st[m].no_backtracking)
             && (h0.locked.contains(m) ==> same_but_flag(h0.st[m], h2.st[m])) by {
